@@ -146,14 +146,16 @@ CHECKS = {
              "the solver proves 'removed <=> presence/m < t' over each path's threshold region.",
         design="4/C16"),
     "C18": dict(
-        technique="merge-mode bounded symbolic execution of parse_ranking_with_ties with a bounded symbolic string model (views on a "
+        technique="merge-mode bounded symbolic execution of parse_ranking_with_ties, write_rankings and get_rankings_from_file with a bounded symbolic string model (views on a "
                   "buffer of symbolic code points; strip/split/find/slice with CPython semantics); z3 discharges unwinding, index and "
                   "round-trip obligations",
         text="Totality: for every string of length <= 9 (thorough 12) over code points 0..127 every raise reached is a ValueError, string "
              "indices are in range and both loops exit within the bound; round trip: for 240 templates rendered like str(Ranking) (both "
              "notations, name prefix, surrounding whitespace, <= 3 buckets x 2 elements of 1-3 symbolic characters) the parser returns "
-             "exactly the template's buckets; the string model is compared with CPython on random strings on every run. File round trip "
-             "(Dataset.write / from_file) is outside the claim.",
+             "exactly the template's buckets; the string model is compared with CPython on random strings on every run. File round trip: "
+             "write_rankings and get_rankings_from_file executed on a modelled file (buffer of code points) for files of 1-3 template "
+             "rankings incl. the empty ranking: no exception and the reader hands to the (stubbed) parser exactly the lines written, in "
+             "order, also when the int parser refuses a line. The OS file layer and Dataset.__eq__ (C17) are outside the claim.",
         design="4/C18"),
     "C20": dict(
         technique="merge-mode bounded symbolic execution of the six Markov moves and the two step functions as an inductive step "
